@@ -15,7 +15,7 @@ import (
 func init() {
 	register(&Def{
 		ID: "C14",
-		Explanation: "Structural necessary conditions of 'paths address what was visited': (fresh) no method of datamodel.Path appends to, copies into or stores through the receiver's segment slice - a longer path always gets a backing array of its own, so sibling paths never overwrite each other; (separator) Path.String writes exactly the byte ParsePath splits on between segments and uses no path-cleaning helper (segments such as '.' and '..' are ordinary keys); (coupling) wherever a walk descends, the segment appended to Progress.Path and the child node handed to the recursive call originate together (the two results of one iterator Next, or a lookup by that very segment) - checked through helper parameters at their call sites; the selector handed down is the result of Explore for that same segment; (get) Progress.get resolves step by step: LookupByString of the segment's string on maps, LookupByIndex of its index on lists, every lookup error returns no node, links are followed through LinkSystem.Load. " +
+		Explanation: "Structural necessary conditions of 'paths address what was visited': (fresh) no method of datamodel.Path appends to, copies into or stores through the receiver's segment slice - a longer path always gets a backing array of its own, so sibling paths never overwrite each other; (separator) Path.String writes exactly the byte ParsePath splits on between segments and uses no path-cleaning helper (segments such as '.' and '..' are ordinary keys); (coupling) wherever a walk descends, the segment appended to Progress.Path and the child node handed to the recursive call originate together (the two results of one iterator Next, or a lookup by that very segment) - checked through helper parameters at their call sites; the selector handed down is the result of Explore for that same segment; (get) Progress.get resolves step by step: LookupByString of the segment's string on maps, LookupByIndex of its index on lists, every lookup error returns no node, links are followed through LinkSystem.Load.  (keysegment) a map key becomes a reported segment through its representation when typed and only after AsString succeeded." +
 			"Equality of the resolved node with the visited node and the error-exactly-when clause are value-level and not decided.",
 		NotCovered: []string{"equality of the resolved node with the visited node", "resolution fails exactly when a segment does not exist", "ParsePath(String(p)) == p as values"},
 		Trusted:    []string{"go/ssa, go/types", "strings.FieldsFunc / strings.Builder"},
